@@ -2,7 +2,7 @@
 from pyvc import components, runner
 from harness import components as hc, models
 
-FUNCS = ['PEPit/point.py::Point.eval', 'PEPit/expression.py::Expression.eval', 'PEPit/constraint.py::Constraint.eval', 'PEPit/psd_matrix.py::PSDMatrix.eval']
+FUNCS = ['PEPit/point.py::Point.eval', 'PEPit/expression.py::Expression.eval', 'PEPit/constraint.py::Constraint.eval', 'PEPit/psd_matrix.py::PSDMatrix.eval', 'PEPit/pep.py::PEP._eval_points_and_function_values']
 
 
 def run(run):
